@@ -245,10 +245,10 @@ def diff_class(r):
     if any(e["kind"] == "missing" for e in ap.values()):
         return "applied-tree-versions-missing-paths"
     both = set(pv) & set(ap)
-    if any((pv[p]["c"], pv[p]["t"]) != (ap[p]["c"], ap[p]["t"]) for p in both):
-        return "content"
     if any(pv[p]["kind"] != ap[p]["kind"] for p in both):
         return "kind"
+    if any((pv[p]["c"], pv[p]["t"]) != (ap[p]["c"], ap[p]["t"]) for p in both):
+        return "content"
     if any(pv[p]["x"] != ap[p]["x"] for p in both):
         return "executable-bit"
     return "versioned-paths"
@@ -277,6 +277,7 @@ def classify(row, failed):
 
 def run(ctx):
     global CASES
+    tc.deterministic_hashing(ctx)
     env.init()
     maxops = 3
     parts = enumerate_transforms(ctx, maxops, "A")
